@@ -54,6 +54,7 @@ DIRS = ["/run/lock", "/sys/fs/bpf", "/tmp"]
 KF_RACE = "C23-last-leaver-race"
 KF_FMMU = "C23-fmmu-create-init-window"
 KF_STALE = "C23-stale-table-joiner"
+KF_EVICT = "C23-failed-installer-evicts-joiner"
 
 
 def domains(seed):
@@ -235,7 +236,88 @@ def _race_pattern(log, a, k, need):
 
 def _kf_dispatcher(log, kind, who):
     """attribute an invariant-2 violation to a documented defect, or None"""
-    return _kf_race(log, kind) or _kf_stale(log, who)
+    return _kf_race(log, kind) or _kf_stale(log, who) \
+        or _kf_evict_teardown(log, kind, who)
+
+
+def _evicted(log, j, eth):
+    """the documented eviction by a failing installer, for the running
+    participant j with ethertype eth: j created its lock file inside the lock
+    directory (step c) after an installer I != j had renamed its directory
+    into place (step r < c), and I's start then failed: its error path
+    rmtree(lock directory) succeeded at step t > c without I having run or
+    exited in between.  -> t or None"""
+    path = f"{LOCKDIR}/{eth}.lock"
+    c = None
+    for ev in log:
+        if ev[1] == j and _ok(ev):
+            if ev[2] == "open" and ev[3][0] == path and ev[3][1] == "x":
+                c = ev[0]
+            elif ev[2] == "exit":
+                c = None
+    if c is None:
+        return None
+    for ev in log:
+        if ev[0] <= c or ev[1] == j or not _ok(ev) \
+                or ev[2] != "rmtree" or ev[3][0] != LOCKDIR:
+            continue
+        i, t, r = ev[1], ev[0], None
+        for e2 in log:
+            if e2[0] >= t:
+                break
+            if e2[1] != i:
+                continue
+            if e2[2] == "rename" and e2[3][1] == LOCKDIR and _ok(e2):
+                r = e2[0]
+            elif e2[2] in ("work", "exit"):
+                r = None
+        return t if r is not None and r < c else None
+    return None
+
+
+def _kf_evict(log, j, eth):
+    return KF_EVICT if _evicted(log, j, eth) is not None else None
+
+
+def _kf_evict_teardown(log, kind, who):
+    """consequence of the eviction: a later leaver K, whose rmdir of the lock
+    directory succeeded although the evicted participant was still there,
+    detached the dispatcher / unpinned the table under it"""
+    if kind == "no dispatcher attached":
+        last = None
+        for ev in log:
+            if ev[2] == "set_xdp" and _ok(ev):
+                last = ev
+        if last is None or last[3][1] != -1:
+            return None
+    elif kind == "program table not pinned":
+        last = None
+        for ev in log:
+            if _ok(ev) and ((ev[2] == "remove" and ev[3][0] == PROGRAMS)
+                            or ev[2] == "obj_pin"):
+                last = ev
+        if last is None or last[2] != "remove":
+            return None
+    else:
+        return None
+    k, d = last[1], last[0]
+    for j in who:
+        if j == k:
+            continue
+        eth = None            # j's ethertype: its last lock file in LOCKDIR
+        for ev in log:
+            if ev[1] == j and _ok(ev) and ev[2] == "open" \
+                    and ev[3][1] == "x" \
+                    and ev[3][0].startswith(LOCKDIR + "/"):
+                eth = ev[3][0][len(LOCKDIR) + 1:-len(".lock")]
+        if eth is None:
+            continue
+        t = _evicted(log, j, eth)
+        if t is not None and any(
+                ev[1] == k and ev[2] == "rmdir" and ev[3][0] == LOCKDIR
+                and _ok(ev) and t < ev[0] < d for ev in log):
+            return KF_EVICT
+    return None
 
 
 def _kf_race(log, kind):
@@ -455,7 +537,8 @@ def monitor(run):
                 "participant exists (a participant whose start failed removes "
                 "nothing but what it created itself)",
                 observed=f"participant {pid} is running with ethertype "
-                         f"{eth:#x}, {path} does not exist" + by))
+                         f"{eth:#x}, {path} does not exist" + by,
+                kf=_kf_evict(run.log, pid, eth)))
     # (4) disjoint logical address windows
     slots = [(pid, f[2]) for pid, f in running] + holding
     for i, (p, sp) in enumerate(slots):
@@ -527,16 +610,28 @@ def spaces(ctx):
         # (restart-2p-complete-small: 3.4 M executions, complete and clean
         # on the pinned tree, takes the run beyond half an hour on a busy
         # machine; it is replaced by its preemption-bound-3 version and
-        # remains available through C23_SPACES)
-        sp = [make_space("full-2p-complete-crash1", "full", 2, None, 1, s),
-              make_space("restart-2p-preempt2", "restart", 2, 2, 0, s),
+        # remains available through C23_SPACES.
+        # restart-2p-preempt3-fault1-small: 0.39 M executions; the smallest
+        # space found that reaches C23-failed-installer-evicts-joiner - it
+        # needs a connect() failure of the installer and three preemptions -
+        # also only through C23_SPACES)
+        sp = [make_space("full-2p-complete-crash1-fault1", "full", 2, None,
+                         1, s, faults=1),
+              make_space("restart-2p-preempt2-fault1", "restart", 2, 2, 0, s,
+                         faults=1),
               make_space("restart-2p-preempt3-small", "restart", 2, 3, 0,
                          s, neth=1, nslot=2),
-              make_space("full-3p-preempt2", "full", 3, 2, 0, s),
+              make_space("full-3p-preempt2-fault1", "full", 3, 2, 0, s,
+                         faults=1),
               make_space("fmmu-3p-complete-crash1", "fmmu", 3, None, 1, s)]
-        if "restart-2p-complete-small" in _os.environ.get("C23_SPACES", ""):
+        extra = _os.environ.get("C23_SPACES", "").split(",")
+        if "restart-2p-complete-small" in extra:
             sp.append(make_space("restart-2p-complete-small", "restart", 2,
                                  None, 0, s, neth=1, nslot=2))
+        if "restart-2p-preempt3-fault1-small" in extra:
+            sp.append(make_space("restart-2p-preempt3-fault1-small",
+                                 "restart", 2, 3, 0, s, neth=1, nslot=2,
+                                 faults=1))
     only = _os.environ.get("C23_SPACES")      # development aid
     if only:
         sp = [x for x in sp if x.name in only.split(",")]
